@@ -88,6 +88,7 @@ EXTENDS Naturals, Integers, Sequences, FiniteSets, TLC, Json
 CONSTANTS Alphabet,        \* code points the values are built from
           MaxLen,          \* longest value
           Emit,            \* TRUE: print CASE lines
+          LemmaLen,        \* the size lemmas are checked for values up to this length
           ZoneWhatIf,      \* TRUE: also compute the read-backs of "zone" values as if they were accepted
           NoIndentRule, AllowEndLF, ValidateLFOnly, ReaderNoWsRule   \* negative controls (FALSE)
 
@@ -370,7 +371,7 @@ RejectExact    == Accept(inp) <=> ~DefectU(inp)
 ZonesNested    == MustReject(inp) => DefectU(inp)
 RejectAtomic   == res = "ValueError" => para = P0 /\ \A pos \in Positions : AssignOutcome(P0, pos, inp).para = P0
 AcceptStores   == res = "ok" => para = Stored(P0, 2, inp)
-StretchInvariant == \A i \in 1..Len(inp) : IsPayload(inp[i]) => SameClass(inp, DupAt(inp, i))
-RepeatInvariant  == \A s \in Segs(inp) : SameClass(inp, DupSeg(inp, s))
+StretchInvariant == Len(inp) <= LemmaLen => \A i \in 1..Len(inp) : IsPayload(inp[i]) => SameClass(inp, DupAt(inp, i))
+RepeatInvariant  == Len(inp) <= LemmaLen => \A s \in Segs(inp) : SameClass(inp, DupSeg(inp, s))
 ReaderTotal    == Accept(inp) => \A pos \in Positions : out[pos].clean
 =============================================================================
